@@ -255,7 +255,7 @@ fn grid_recs(ctx: u8, len: u64, present: u8) -> Vec<Rec> {
         3 => vec![ir, msg(7, vec![msg(1, vec![bytes(6)])])],
         4 => vec![ir, msg(7, vec![msg(5, vec![bytes(9)])])],
         5 => vec![ir, msg(7, vec![msg(5, vec![Rec::PackedVar { num: 7, len: l.clone(), elems: (0..present).map(|i| grammar::V { v: i as u64, pad: 0 }).collect(), cut: 0 }])])],
-        6 => vec![ir, msg(7, vec![msg(5, vec![Rec::PackedFix { num: 4, len: l.clone(), wide: false, n: present / 4, extra: present % 4 }])])],
+        6 => vec![ir, msg(7, vec![msg(5, vec![Rec::PackedFix { num: 4, len: l.clone(), wide: false, n: present / 4, stray: vec![0x08; (present % 4) as usize] }])])],
         _ => vec![ir, msg(7, vec![msg(1, vec![msg(5, vec![Rec::Msg { num: 6, len: l.clone(), lpad: 0, fields: vec![msg(1, vec![])] }])])])],
     }
 }
